@@ -363,6 +363,9 @@ enum Mutation {
     ZeroLenPush(u16, u8),
     /// pad with `n` no-op opcodes at a token boundary (Bitcoin's 201-opcode limit is not a template rule)
     PadNops(u16, u8, u16),
+    /// a run of 1..12 further tokens (opcodes, zero-length and short pushes) at a token boundary - mostly in front of
+    /// or behind the whole template: a template must match the WHOLE token sequence, however long
+    InsertTokens(u16, Vec<u8>),
 }
 
 fn mutation() -> BS<Mutation> {
@@ -373,6 +376,12 @@ fn mutation() -> BS<Mutation> {
         3 => (any::<u16>(), prop_oneof![Just(0x61u8), 0xb0u8..=0xb9]).prop_map(|(p, b)| Mutation::InsertNop(p, b)),
         1 => (any::<u16>(), prop_oneof![Just(0x00u8), Just(0x4cu8), Just(0x4du8), Just(0x4eu8)]).prop_map(|(p, b)| Mutation::ZeroLenPush(p, b)),
         1 => (any::<u16>(), prop_oneof![Just(0x61u8), 0xb0u8..=0xb9], prop_oneof![2 => 2u16..40, 1 => 190u16..210, 1 => 210u16..600]).prop_map(|(p, b, n)| Mutation::PadNops(p, b, n)),
+        2 => (prop_oneof![3 => Just(0u16), 3 => Just(u16::MAX), 1 => any::<u16>()], vec(prop_oneof![
+                3 => Just(vec![0x00u8]),
+                3 => proptest::sample::select(vec![0x51u8, 0x52, 0x53, 0x60, 0x75, 0x76, 0x87, 0x88, 0xa9, 0xac, 0xae, 0x6a, 0x4f]).prop_map(|o| vec![o]),
+                2 => vec(any::<u8>(), 1..4).prop_map(|d| { let mut v = vec![d.len() as u8]; v.extend(d); v }),
+                1 => Just(vec![0x4cu8, 0x01, 0xaa]),
+            ], 1..12)).prop_map(|(p, toks)| Mutation::InsertTokens(p, toks.concat())),
     ].boxed()
 }
 
@@ -429,6 +438,13 @@ fn apply_mutation(mut s: Vec<u8>, m: &Mutation) -> Vec<u8> {
             let at = bd[mono(*p, bd.len())].min(s.len());
             let tail = s.split_off(at);
             s.extend(std::iter::repeat(*b).take(*n as usize));
+            s.extend(tail);
+        }
+        Mutation::InsertTokens(p, toks) => {
+            let bd = boundaries(&s);
+            let at = bd[mono(*p, bd.len())].min(s.len());
+            let tail = s.split_off(at);
+            s.extend(toks);
             s.extend(tail);
         }
         Mutation::ZeroLenPush(p, b) => {
